@@ -239,6 +239,8 @@ func scenarios() []scen {
 	add("vproto:YN", 3, 1, 0, "full")
 	add("xor", 3, 2, 1, "full")
 	add("xor", 4, 1, 1, "full")
+	add("xor", 3, 6, 0, "full")       // a link that retransmits eagerly: up to six re-deliveries in one short session
+	add("vproto:BB", 3, 7, 0, "full") // the same over two message rounds
 	add("vproto2:3", 2, 2, 1, "full")
 	add("vproto2:4", 2, 2, 1, "full")
 	add("doerner-keygen", 2, 1, 1, "full")
